@@ -570,6 +570,10 @@ func (e *Engine) widen(st *State, fr *Frame, p *ssa.Phi, incoming *Term) *Term {
 		return incoming
 	}
 	name := IVName(fr.ctx, p.Block(), p)
+	// countdown from a symbolic start: represent the value as start - counter
+	if v, ok := e.widenCountdown(st, name, prev, incoming); ok {
+		return v
+	}
 	pb, pc := AffParts(prev)
 	ib, ic := AffParts(incoming)
 	if pb != ib || pc == ic {
@@ -617,6 +621,36 @@ func (e *Engine) widen(st *State, fr *Frame, p *ssa.Phi, incoming *Term) *Term {
 		st.facts.bnd[k] = nb
 	}
 	return k
+}
+
+// widenCountdown handles a descending induction variable whose start is
+// symbolic (for left := N; left > 0; left--): the value is kept as
+// start - J + c with a counter symbol J >= 1, so that expressions such as
+// N - left (the attempt number) stay exact.
+func (e *Engine) widenCountdown(st *State, name string, prev, incoming *Term) (*Term, bool) {
+	cnt := name + "#cnt"
+	pp, pn, pc := Aff2Parts(prev)
+	ip, in, ic := Aff2Parts(incoming)
+	if pp == nil || pp != ip || pp.K == KSym && strings.HasPrefix(pp.S, "iv|") {
+		return nil, false
+	}
+	switch {
+	case pn == nil && in == nil && ic == pc-1:
+		// first back edge: prev = P + c, incoming = P + c - 1  =>  P - J + c, J >= 1
+	case pn != nil && pn == in && pn.K == KSym && pn.S == cnt && pn.G == 0 && ic == pc-1:
+		// later back edges: prev = P - J + c, incoming = P - J + c - 1
+	default:
+		return nil, false
+	}
+	if old, ok := e.IVStep[name]; ok && old != -1 {
+		e.IVStep[name] = 0
+	} else if !ok {
+		e.IVStep[name] = -1
+	}
+	st.shiftSite(cnt)
+	j := Sym(cnt, 0)
+	st.facts.bnd[j] = bound{lo: 1, hasLo: true}
+	return Aff2(pp, j, pc), true
 }
 
 // value resolves an ssa.Value to a term in the frame.
